@@ -105,25 +105,29 @@ def endOf : Tok → Option Tok
   | .start n _ => some (.stop n)
   | _ => none
 
-inductive TxErr | notStart | closed
+inductive TxErr | notStart | eof | closed
   deriving DecidableEq, Repr
 
 /-- `Session.Send`: first token must be a start element; its content up to the matching end
 is copied, the end element is regenerated from the start -/
 def sendToks : List Tok → Except TxErr (List Tok)
   | .start n as :: ts => .ok (.start n as :: inner 0 ts ++ [.stop n])
+  | [] => .error .eof
   | _ => .error .notStart
 
 /-- `Session.SendElement`: the whole token stream is the payload -/
 def sendElementToks (n : Name) (as : List Attr) (ts : List Tok) : List Tok :=
   .start n as :: ts ++ [.stop n]
 
+def notDefaultDecl (a : Attr) : Bool := !(a.name.space == "" && a.name.loc == "xmlns")
+
 /-- the element writer of `marshal.EncodeXMLElement`: every start element at depth 0 of the
 encoding of the value takes the name of `start` and `start`'s attributes followed by its own (as
-`encoding/xml`'s `EncodeElement` does); the matching end element is renamed -/
+`encoding/xml`'s `EncodeElement` does; its own default-namespace declaration is dropped: the
+namespace is now that of `start`); the matching end element is renamed -/
 def replaceOuter (n : Name) (as : List Attr) : Nat → List Tok → List Tok
   | _, [] => []
-  | 0, .start _ own :: ts => .start n (as ++ own) :: replaceOuter n as 1 ts
+  | 0, .start _ own :: ts => .start n (as ++ own.filter notDefaultDecl) :: replaceOuter n as 1 ts
   | d + 1, .start m own :: ts => .start m own :: replaceOuter n as (d + 2) ts
   | 0, .stop m :: ts => .stop m :: replaceOuter n as 0 ts
   | 1, .stop _ :: ts => .stop n :: replaceOuter n as 0 ts
@@ -162,7 +166,7 @@ def Kind.loc : Kind → String
 def kindName (k : Kind) (n : Name) : Bool :=
   n.loc == k.loc && (n.space == "" || n.space == nsClient || n.space == nsServer)
 
-inductive StanzaErr | notStart | wrongKind
+inductive StanzaErr | notStart | eof | wrongKind
   deriving DecidableEq, Repr
 
 /-- `SendIQ`/`SendMessage`/`SendPresence` up to the call of `SendElement`: the tokens handed to
@@ -170,6 +174,7 @@ the encoder (whether the call then waits for a reply does not change what is wri
 def stanzaSendToks (k : Kind) (fresh : String) : List Tok → Except StanzaErr (List Tok)
   | .start n as :: ts =>
     if kindName k n then .ok (sendElementToks n (ensureId fresh as) (inner 0 ts)) else .error .wrongKind
+  | [] => .error .eof
   | _ => .error .notStart
 
 /-- tokens reaching the underlying `xml.Encoder` for a call on a fresh (depth 0) encoder -/
@@ -195,6 +200,14 @@ def exec : Out → List Op → Out
 /-- every transmit entry point: encode the tokens, then flush (`send`, `EncodeXML`,
 `EncodeXMLElement`, `lockWriteCloser.Close`, `handleInputStream`'s `w.Flush()`) -/
 def txProg (ts : List Tok) : List Op := ts.map .write ++ [.flush]
+
+/-- `marshal.EncodeXML` / `EncodeXMLElement` as they are: a value that writes its own tokens
+(`xmlstream.WriterTo`) is not followed by a flush (known finding, see KNOWN_FINDINGS.txt) -/
+def encodeProg (writerTo : Bool) (ts : List Tok) : List Op :=
+  ts.map .write ++ (if writerTo then [] else [.flush])
+
+/-- does the call return with its element on the connection? -/
+def flushesAtReturn (entry form : String) : Bool := !((entry == "enc" || entry == "encel") && form == "writerto")
 
 /-! ### what the peer parses (`encoding/xml` printer + parser, trusted) -/
 
